@@ -32,8 +32,21 @@ the latter may raise (`Cfg.logFails`, an oracle), which only changes the reply.
 Quirks kept: a global `deactivate` leaves module / parameter subscriptions alone; `deactivate m`
 also drops `m:p`; `deactivate` of anything unknown answers `inactive`; repeated identical errors are
 not announced; disconnect does not take the dispatcher lock.
-The omit window for unchanged values (`omit_unchanged_within`, `update_unchanged`) is an oracle per parameter
-(`Cfg.omitSame`): either 0 (every value assignment is announced) or longer than the run.
+Round 4.
+* An entry of the cache is a value or an error class TOGETHER WITH its time stamp (`pobj.timestamp`, the qualifier `t` of every
+  update message).  An assignment carries the time stamp it is made with (`announceUpdate(…, timestamp=t)`, or the clock read
+  inside `announceUpdate`), so the omit window (`omit_unchanged_within`, `update_unchanged`) is transcribed exactly:
+  `not changed and timestamp < (pobj.timestamp or 0) + pobj.omit_unchanged_within` (`Cfg.omitWithin`, any length, also one that
+  ends during the run; time stamps need not be monotone).  An omitted announcement leaves the whole entry — time stamp included — alone.
+* `read` / `change` requests (`Req.rw`): the request thread holds `_lock`, takes `module.accessLock` (twice for a `change`:
+  `_setParameterValue` and the `write_` wrapper; the lock is re-entrant) and runs `announceUpdate` itself — update lock, store,
+  `_subscription_lock`, listener selection, sends — before it releases them and replies.  The announcement is run by the
+  updater machine in the slot `own c` of the connection (a call is modelled as handing the assignment to a sub-thread and
+  waiting for it: the slot moves only while its owner waits in the call, the owner continues only when the slot is idle again;
+  see `gate`), so everything proved about updaters holds for updates produced by requests.  What the driver's `read_<p>` /
+  `write_<p>` returns or raises is part of the request (`Req.rw w m p e`); which requests are refused before anything happens,
+  answered from the cache, or go through the wrapper is static (`Cfg.rw`).  `accessLock` is taken only by request threads here
+  (they hold `_lock`, so it is never contended): its acquire / release are actions without lock state.
 -/
 namespace Frappy.Activate
 
@@ -58,10 +71,11 @@ def pkey (m : Mod) (p : Par) : Name := m.val ++ colon :: p
 /-- `msg[1].split(':', 1)[0]` -/
 def modPart (k : Name) : Name := k.takeWhile (fun ch => ch != colon)
 
-/-- value-or-error held for a parameter (`pobj.value` / `pobj.readerror`) -/
+/-- what the cache holds for a parameter and what an update message carries: value or error class (`pobj.value` /
+`pobj.readerror`) and the time stamp (`pobj.timestamp`; 0 = none, e.g. the start-up state "not initialized") -/
 inductive Entry
-  | val (v : Int)
-  | err (k : Nat)
+  | val (v : Int) (t : Nat)
+  | err (k : Nat) (t : Nat)
   deriving DecidableEq, Repr, Inhabited
 
 inductive Scope
@@ -81,7 +95,41 @@ inductive Req
   | deactivate (s : Scope)
   | ident
   | disconnect
+  /-- `read m:p` (`w = false`) / `change m:p v` (`w = true`); `e` is what the driver's `read_p` / `write_p` produces: the value
+  (with the time stamp `announceUpdate` gives it) or the error it raises -/
+  | rw (w : Bool) (m : Mod) (p : Par) (e : Entry)
+  /-- a request of action `a` with specifier `s` that the handler refuses on its first lines (`activate` / `deactivate` /
+  `read` with data, `read` / `change` without specifier: `ProtocolError` before anything is looked at) -/
+  | malformed (a : Name) (s : Name)
   deriving DecidableEq, Repr, Inhabited
+
+/-- how the dispatcher treats a `read` / `change` of a parameter -/
+inductive RwKind
+  | refuse      -- error reply before anything happens (no such module / parameter, read-only, constant for a change)
+  | plain       -- answered from the cache without calling into the module (a parameter without `read_` function, a constant)
+  | calls       -- through the `read_` / `write_` wrapper: `accessLock`, driver function, `announceUpdate`
+  deriving DecidableEq, Repr, Inhabited
+
+/-- the static facts about a parameter that the checks in front of the driver call look at -/
+structure ParInfo where
+  readonly : Bool          -- `pobj.readonly`
+  constant : Bool          -- `pobj.constant is not None`
+  hasRead : Bool           -- the class defines `read_<p>` (otherwise the generated `read_<p>` just returns the cached value)
+  deriving DecidableEq, Repr, Inhabited
+
+/-- `Dispatcher._getParameterValue` (`w = false`) / `_setParameterValue` (`w = true`) up to the driver call.  `look m p` is
+`secnode.get_module(m)` (ALL modules, also those that are not exported) followed by
+`moduleobj.parameters.get(moduleobj.accessiblename2attr.get(p))` (the exported name of a parameter; a command or an unknown
+name gives nothing): no module / no parameter → `NoSuchModule` / `NoSuchParameter`; a change of a constant or read-only
+parameter → `ReadOnly`; a read of a constant is answered directly; a read without `read_` function returns the cached value;
+everything else goes through the `read_` / `write_` wrapper. -/
+def rwKindOf (look : Mod → Par → Option ParInfo) (w : Bool) (m : Mod) (p : Par) : RwKind :=
+  match look m p with
+  | none => .refuse
+  | some i =>
+    if w then (if i.constant || i.readonly then .refuse else .calls)
+    else if i.constant then .plain
+    else if i.hasRead then .calls else .plain
 
 inductive Tid
   | h (c : Conn)
@@ -106,10 +154,12 @@ structure Cfg where
   /-- oracle: does `set_all_log_levels(conn, 'off')` raise for this connection (remote logging not set up:
   `ValueError('remote handler not found')`); `reset_connection` calls it AFTER the tables are cleared -/
   logFails : Conn → Bool := fun _ => false
-  /-- is an assignment of the value the parameter already holds left unannounced (`Parameter.update_unchanged = 'never'`,
-  or a module / general `omit_unchanged_within` longer than the run); `false`: every value assignment is announced
-  (`'always'`, window 0).  A window that ends during the run is not modelled. -/
-  omitSame : Mod → Par → Bool := fun _ _ => false
+  /-- `pobj.omit_unchanged_within` (from `update_unchanged`, the module's or the general `omit_unchanged_within`), in the
+  unit of the time stamps: an unchanged value is announced again only when its time stamp is at least this much later -/
+  omitWithin : Mod → Par → Nat := fun _ _ => 0
+  /-- static outcome of the checks of `_getParameterValue` (`w = false`) / `_setParameterValue` (`w = true`); the driver
+  instantiates it with `rwKindOf` over the parameter table of the real node -/
+  rw : Bool → Mod → Par → RwKind := fun _ _ _ => .calls
 
 /-- program counter of a request thread -/
 inductive HPc
@@ -120,6 +170,8 @@ inductive HPc
   | wantUpd (s : Scope) (m : Mod) (rest : List Mod)                       -- next: acquire `upd m`
   | snapMod (s : Scope) (m : Mod) (ps : List Par) (rest : List Mod)       -- holds `upd m`; next: build for head of `ps` / release
   | snapSend (s : Scope) (m : Mod) (p : Par) (e : Entry) (ps : List Par) (rest : List Mod)   -- message built; next: send
+  | wantAcc (w : Bool) (m : Mod) (p : Par) (e : Entry) (n : Nat)   -- `read` / `change`; holds `disp`; next: acquire `module.accessLock` (`n` to go)
+  | relAcc (w : Bool) (m : Mod) (p : Par) (e : Entry) (n : Nat)    -- in the call / after it; next: release `module.accessLock` (`n` to go)
   | relDisp (r : Req) (ok : Bool)          -- next: release `disp`
   | rep (r : Req) (ok : Bool)              -- next: send the reply
   | done
@@ -192,6 +244,8 @@ def validScope (cfg : Cfg) : Scope → Bool
 
 def validReq (cfg : Cfg) : Req → Bool
   | .activate s => validScope cfg s
+  | .rw w m p _ => cfg.rw w m p != .refuse
+  | .malformed _ _ => false
   | _ => true
 
 def afterSnap (s : Scope) : List Mod → HPc
@@ -205,6 +259,33 @@ def afterTable (cfg : Cfg) (c : Conn) : Req → HPc
   | .disconnect => .idle
   | .ident => .relDisp .ident (!cfg.logFails c)
   | r => .relDisp r true
+
+/-- the reply of a `read` / `change` is positive iff the driver function did not raise -/
+def rwOk : Req → Bool
+  | .rw _ _ _ (.err _ _) => false
+  | _ => true
+
+/-- does the call announce something: a `read` announces the value or the error, a `change` the value
+(a `write_` function that raises leaves the parameter alone) -/
+def rwAssign : Req → List (Mod × Par × Entry)
+  | .rw false m p e => [(m, p, e)]
+  | .rw true m p (.val v t) => [(m, p, .val v t)]
+  | _ => []
+
+/-- acquisitions of `accessLock`: `_setParameterValue` takes it around the `write_` wrapper, which takes it again -/
+def accDepth : Req → Nat
+  | .rw true _ _ _ => 2
+  | _ => 1
+
+/-- where the request thread of `c` continues once it holds `disp` and the request passed validation -/
+def afterStart (cfg : Cfg) : Req → HPc
+  | .rw w m p e => if cfg.rw w m p = .calls then .wantAcc w m p e (accDepth (.rw w m p e)) else .relDisp (.rw w m p e) true
+  | r => .wantSub r
+
+/-- the updater slot that runs the announcements of the requests of connection `c` (even numbers: updater threads) -/
+def own (c : Conn) : Nat := 2 * c + 1
+
+def ownerOf (k : Nat) : Option Conn := if k % 2 = 1 then some (k / 2) else none
 
 /-- `subscribe(conn, eventname)`: `self._subscriptions.setdefault(eventname, set()).add(conn)` -/
 def subscribe (σ : State) (c : Conn) (ev : Name) : State :=
@@ -238,24 +319,45 @@ def tableWrite (σ : State) (c : Conn) : Req → State
   | .deactivate s => unregister σ c s
   | .ident => resetConn σ c
   | .disconnect => resetConn σ c
+  | .rw _ _ _ _ => σ
+  | .malformed _ _ => σ
 
 /-- is `m:p` an exported parameter of an exported module (`pobj.export`; the parameters of a module that is not exported
 are not exported either) -/
 def exported (cfg : Cfg) (m : Mod) (p : Par) : Bool := cfg.mods.contains m && (cfg.pars m).contains p
 
-/-- is the assignment announced to the dispatcher (`announceUpdate`): repeated identical errors are dropped; an unchanged
-value (`changed = pobj.value != value or pobj.readerror` is false) is dropped inside the parameter's omit window; and only
-an exported parameter is passed on (`if pobj.export: self.updateCallback(self, pobj)`) -/
+def sameErr (old : Entry) (k : Nat) : Bool :=
+  match old with
+  | .err k' _ => k' == k
+  | .val _ _ => false
+
+/-- `not changed and timestamp < (pobj.timestamp or 0) + pobj.omit_unchanged_within` -/
+def omitted (w : Nat) (old : Entry) (v : Int) (t : Nat) : Bool :=
+  match old with
+  | .val v' t' => v' == v && decide (t < t' + w)
+  | .err _ _ => false
+
+/-- is the assignment stored with its time stamp and announced to the dispatcher (`announceUpdate`): repeated identical errors
+are dropped (`secop_error(err) == pobj.readerror`, whatever the time stamps); an unchanged value (`changed = pobj.value != value
+or pobj.readerror` is false) is dropped inside the parameter's omit window — in both cases the entry keeps its old time stamp;
+and only an exported parameter is passed on (`if pobj.export: self.updateCallback(self, pobj)`) -/
 def emits (cfg : Cfg) (m : Mod) (p : Par) (old new : Entry) : Bool :=
   exported cfg m p &&
   match new with
-  | .err k => old != .err k
-  | .val v => !(cfg.omitSame m p && old == .val v)
+  | .err k _ => !sameErr old k
+  | .val v t => !omitted (cfg.omitWithin m p) old v t
 
 def firstPc (r : Req) : HPc :=
   match r with
   | .disconnect => .wantSub r
   | r => .start r
+
+def afterCall (w : Bool) (m : Mod) (p : Par) (e : Entry) (n : Nat) : HPc :=
+  if n ≤ 1 then .relDisp (.rw w m p e) (rwOk (.rw w m p e)) else .relAcc w m p e (n - 1)
+
+/-- the updater slot has nothing to do and is not in the middle of an assignment -/
+def slotIdle (σ : State) (k : Nat) : Bool :=
+  (σ.upc k == .idle) && (σ.uscript k).isEmpty
 
 def stepH (cfg : Cfg) (σ : State) (c : Conn) : Option State :=
   match σ.hpc c with
@@ -266,7 +368,7 @@ def stepH (cfg : Cfg) (σ : State) (c : Conn) : Option State :=
                                trace := σ.trace ++ [.reqStart c r] }
   | .start r =>
     if σ.disp = none then
-      some { σ with disp := some c, hpc := set σ.hpc c (if validReq cfg r then .wantSub r else .relDisp r false) }
+      some { σ with disp := some c, hpc := set σ.hpc c (if validReq cfg r then afterStart cfg r else .relDisp r false) }
     else none
   | .wantSub r =>
     if σ.sub = none then
@@ -286,6 +388,19 @@ def stepH (cfg : Cfg) (σ : State) (c : Conn) : Option State :=
     some { σ with hpc := set σ.hpc c (.snapSend s m p (σ.cache m p) ps rest) }
   | .snapSend s m p e ps rest =>
     some { σ with trace := σ.trace ++ [.deliver c m p e], hpc := set σ.hpc c (.snapMod s m ps rest) }
+  | .wantAcc w m p e n =>
+    if n ≤ 1 then
+      -- the call: the announcement is handed to the connection's own updater slot, which must be at rest
+      if slotIdle σ (own c) then
+        some { σ with uscript := set σ.uscript (own c) (rwAssign (.rw w m p e)),
+                      hpc := set σ.hpc c (.relAcc w m p e (accDepth (.rw w m p e))) }
+      else none
+    else some { σ with hpc := set σ.hpc c (.wantAcc w m p e (n - 1)) }
+  | .relAcc w m p e n =>
+    -- the call has returned when the slot is at rest again
+    if slotIdle σ (own c) then
+      some { σ with hpc := set σ.hpc c (afterCall w m p e n) }
+    else none
   | .relDisp r ok =>
     some { σ with disp := none, hpc := set σ.hpc c (.rep r ok) }
   | .rep r ok =>
@@ -329,10 +444,24 @@ structure Act where
   arg : Conn := 0
   deriving DecidableEq, Repr, Inhabited
 
+def inCall : HPc → Bool
+  | .relAcc _ _ _ _ _ => true
+  | _ => false
+
+/-- may updater slot `k` move: an updater thread always; the slot of a connection only while the connection's thread is
+inside the call (`relAcc`) and the slot has something to do (so it never runs ahead, and never ends) -/
+def gate (σ : State) (k : Nat) : Bool :=
+  match ownerOf k with
+  | none => true
+  | some c => inCall (σ.hpc c) && !slotIdle σ k
+
+def stepUG (cfg : Cfg) (σ : State) (k : Nat) (arg : Conn) : Option State :=
+  if gate σ k then stepU cfg σ k arg else none
+
 def step (cfg : Cfg) (σ : State) (a : Act) : Option State :=
   match a.t with
   | .h c => stepH cfg σ c
-  | .u k => stepU cfg σ k a.arg
+  | .u k => stepUG cfg σ k a.arg
 
 /-- states reachable from `σ₀` = all interleavings -/
 inductive Reach (cfg : Cfg) (σ₀ : State) : State → Prop
@@ -351,6 +480,7 @@ inductive Lk
   | disp
   | sub
   | upd (m : Mod)
+  | acc (m : Mod)
   deriving DecidableEq, Repr, Inhabited
 
 inductive Label
@@ -366,6 +496,12 @@ def finished (σ : State) : Tid → Bool
   | .h c => σ.hpc c == .done
   | .u k => σ.upc k == .done
 
+/-- which model thread acts when the scheduler runs the connection's thread: inside a call, while the announcement is under
+way, the connection's updater slot -/
+def actor (σ : State) : Tid → Tid
+  | .h c => if inCall (σ.hpc c) && !slotIdle σ (own c) then .u (own c) else .h c
+  | t => t
+
 /-- does the next action of the thread carry scheduler label `l` (`none`-labelled actions are invisible) -/
 def nextVisible (σ : State) : Tid → Option Label
   | .h c =>
@@ -378,6 +514,8 @@ def nextVisible (σ : State) : Tid → Option Label
     | .snapMod _ m [] _ => some (.release (.upd m))
     | .snapMod _ _ (_ :: _) _ => none
     | .snapSend _ _ _ _ _ _ => some (.send c)
+    | .wantAcc _ m _ _ _ => some (.acquire (.acc m))
+    | .relAcc _ m _ _ _ => some (.release (.acc m))
     | .relDisp _ _ => some (.release .disp)
     | .rep _ _ => some (.send c)
     | .done => none
